@@ -238,7 +238,16 @@ func (bucket *Bucket) getOrCreateCollection(name sgbucket.DataStoreNameImpl, orC
 	defer bucket.mutex.Unlock()
 
 	if collection, ok := bucket.collections[name]; ok {
-		return collection, nil
+		if name.IsDefault() {
+			return collection, nil // the default collection cannot be dropped
+		}
+		// Every handle of the bucket caches its own Collection objects. Another handle may have dropped the
+		// collection since (and the name may have been created again, with a new id): use the cache only if it
+		// still names the stored collection.
+		if id, err := bucket._getCollectionID(name.Scope, name.Collection); err == nil && id == collection.id {
+			return collection, nil
+		}
+		delete(bucket.collections, name)
 	}
 
 	id, err := bucket._getCollectionID(name.Scope, name.Collection)
